@@ -78,6 +78,10 @@ impl OutputFormat for Atascii {
         for ch in data {
             let _ = p.print_char(&mut result, 0, &mut caret, *ch as char);
         }
+        // a file may be longer than one 24 line page: the picture is as high as its rows
+        let height = result.get_line_count().max(result.get_height());
+        result.set_height(height);
+        result.layers[0].set_height(height);
         Ok(result)
     }
 }
